@@ -54,6 +54,22 @@ type c36Case struct {
 	Segs  []c36Seg `json:"segs"`
 	Q     c36Query `json:"q"`
 	Sound bool     `json:"sound"` // statistics bound the records (the oracle applies)
+
+	keys map[string]int // end-to-end cases: segment key -> index into Segs
+}
+
+func c36SegIdx(cs *c36Case, key string) int {
+	if cs.keys != nil {
+		if i, ok := cs.keys[key]; ok {
+			return i
+		}
+		return -1
+	}
+	var i int
+	if _, err := fmt.Sscanf(key, "seg-%d.kfs", &i); err != nil {
+		return -1
+	}
+	return i
 }
 
 type c36Row struct {
@@ -192,9 +208,8 @@ func c36Decode(cs *c36Case, wire []byte) ([]c36Row, error) {
 		}
 		p, e1 := strconv.Atoi(string(dr.Values[0]))
 		o, e2 := strconv.ParseInt(string(dr.Values[1]), 10, 64)
-		var si int
-		_, e3 := fmt.Sscanf(string(dr.Values[2]), "seg-%d.kfs", &si)
-		if e1 != nil || e2 != nil || e3 != nil || si < 0 || si >= len(cs.Segs) {
+		si := c36SegIdx(cs, string(dr.Values[2]))
+		if e1 != nil || e2 != nil || si < 0 || si >= len(cs.Segs) {
 			return nil, fmt.Errorf("unparsable DataRow %q", dr.Values)
 		}
 		ts, found := int64(0), false
@@ -747,7 +762,9 @@ func TestVerifC36(t *testing.T) {
 		if err := json.Unmarshal(rc, &cs); err != nil {
 			t.Fatalf("bad replay: %v", err)
 		}
-		runOne(cs)
+		if cs.Q.Default != 0 { // other case kinds (discovery, end-to-end) are replayed by their own tests
+			runOne(cs)
+		}
 	} else {
 		for _, cs := range c36Corpus() {
 			runOne(cs)
